@@ -76,8 +76,8 @@ where
 {
     let n = unique_states(init) as u64;
     if n != explorer_states {
-        eprintln!("machinery: explorer / stateright disagreement on {}: {} vs {} unique states", what, explorer_states, n);
-        std::process::exit(2);
+        crate::engine::defer_machinery_failure(format!("explorer / stateright disagreement on {}: {} vs {} unique states (the explored system is not deterministic, or the explorers differ)", what, explorer_states, n));
+        return;
     }
     rep.add_extra_count("stateright_cross_checked_graphs", 1);
     rep.add_extra_count("stateright_unique_states_agreeing", n);
